@@ -411,6 +411,12 @@ UNITS["peerrec"] = {
     ensures
         r.is_ok() == verdict(self), // @C09/verify/succeeds_iff_id_derived_from_key_and_signature_covers_this_record
 """},
+        {"impl": "PeerDHTRecord", "fn": "content_hash",
+         "rewrite": [(r"\.to_be_bytes\(\)", ".verif_to_be_bytes()", "callee renamed to the to_be_bytes shim")],
+         "spec": """
+    ensures
+        r == blake3::hash_of(self.user_id.hash@ + be64(self.sequence_number) + be64(self.timestamp)),
+"""},
         {"impl": "SignatureCache", "fn": "new",
          "spec": """
     ensures
@@ -434,6 +440,7 @@ UNITS["peerrec"] = {
 """},
     ],
     "paired_kani": [],
+    "search_test": "verif_search_c09",
     "trusted": [
         "ASSUMED ideal-crypto contracts (verus/peerrec.spec.rs): ml_dsa_verify is a deterministic function of (key, message, signature); BLAKE3 is injective on its input; UserId::from_public_key is a function of the key; postcard::to_stdvec is a deterministic injective encoding; to_be_bytes are fixed-length injective; String::len/as_bytes give the UTF-8 bytes",
         "shim signatures: ml_dsa_verify takes &Vec<u8> instead of &[u8] (the call site passes &Vec via deref coercion); key/signature/endpoint types are opaque",
@@ -491,10 +498,356 @@ UNITS["inbound"] = {
 """},
     ],
     "paired_kani": [],
+    "search_test": "verif_search_c05",
     "trusted": [
         "ASSUMED dependency contract: postcard::from_bytes / to_stdvec are total functions (value-or-error); that the decoders return normally for every input is not verified (a bounded Kani check of the decoders was not tractable)",
         "the decoder shim's PRECONDITION `len <= decode_limit::<T>()` turns 'refused before decoding' into a proof obligation at the call site (limit 512 for DhtRecord; no limit demanded for WireMessage at this layer)",
         "clock acquisition (SystemTime::now().duration_since(..)) replaced by an external clock function: any reading below 2^62",
         "logging macro statements (tracing/log) dropped; error payloads dropped",
+    ],
+}
+
+_CL_SHOULD_EVICT = lambda ty: {"at": r"\|s\|", "params": f"|s: {ty}|", "ret": "bool",
+                               "ensures": "ret == (s.consecutive_failures >= self.config.max_consecutive_failures)"}
+_ENTRY = (r"self\.liveness_states\.entry\(node_id\.clone\(\)\)\.or_default\(\)",
+          "verif_entry_or_default(&mut self.liveness_states, node_id.clone())",
+          "callee renamed to a shim fn whose body is the std call `m.entry(k).or_default()` and whose contract (existing value or inserted default) is assumed")
+_EVICT_FRAME_LT = "final(self).trust_scores@ == old(self).trust_scores@ && final(self).marked_for_eviction@ == old(self).marked_for_eviction@ && final(self).same_config(old(self))"
+UNITS["evict"] = {
+    "property": "C16",
+    "src": "src/dht/routing_maintenance/eviction.rs",
+    "spec": "verus/evict.spec.rs",
+    "shims": {
+        "NodeLivenessState": ("src/dht/routing_maintenance/liveness.rs", {"consecutive_failures": "u32", "total_successes": "u64", "total_failures": "u64"}),
+        "MaintenanceConfig": ("src/dht/routing_maintenance/config.rs", {"max_consecutive_failures": "u32", "min_trust_threshold": "f64"}),
+        "EvictionManager": (None, {"config": "MaintenanceConfig", "liveness_states": "HashMap<DhtNodeId, NodeLivenessState>",
+                                   "trust_scores": "HashMap<DhtNodeId, f64>",
+                                   "marked_for_eviction": "HashMap<DhtNodeId, EvictionReason>"}),
+    },
+    "enums": ["EvictionReason"],
+    "expect_text": [("src/dht/routing_maintenance/liveness.rs",
+                     r"impl Default for NodeLivenessState \{\s*fn default\(\) -> Self \{\s*Self::new\(\)\s*\}\s*\}",
+                     "or_default() inserts NodeLivenessState::new(), whose contract is verified in this unit")],
+    "items": [
+        {"impl": "NodeLivenessState", "fn": "new", "src": "src/dht/routing_maintenance/liveness.rs",
+         "drop": [r"last_seen: Instant::now\(\),\n"],
+         "spec": """
+    ensures
+        r.consecutive_failures == 0 && r.total_successes == 0 && r.total_failures == 0, // @C16/evict/fresh_liveness_state_counts_nothing
+"""},
+        {"impl": "NodeLivenessState", "fn": "record_failure", "src": "src/dht/routing_maintenance/liveness.rs",
+         "spec": """
+    requires
+        old(self).consecutive_failures < u32::MAX,
+        old(self).total_failures < u64::MAX,
+    ensures
+        final(self).consecutive_failures == old(self).consecutive_failures + 1, // @C16/evict/a_failure_adds_one_consecutive_failure
+        final(self).total_successes == old(self).total_successes,
+        final(self).total_failures == old(self).total_failures + 1,
+"""},
+        {"impl": "NodeLivenessState", "fn": "record_success", "src": "src/dht/routing_maintenance/liveness.rs",
+         "drop": [r"self\.last_seen = Instant::now\(\);\n"],
+         "spec": """
+    requires
+        old(self).total_successes < u64::MAX,
+    ensures
+        final(self).consecutive_failures == 0, // @C16/evict/a_success_resets_consecutive_failures
+        final(self).total_failures == old(self).total_failures,
+"""},
+        {"impl": "NodeLivenessState", "fn": "should_evict", "src": "src/dht/routing_maintenance/liveness.rs",
+         "spec": """
+    ensures
+        r == (self.consecutive_failures >= config.max_consecutive_failures), // @C16/evict/state_evictable_iff_max_consecutive_failures
+"""},
+        {"impl": "EvictionManager", "fn": "new",
+         "spec": """
+    ensures
+        r.liveness_states@ == Map::<DhtNodeId, NodeLivenessState>::empty() && r.trust_scores@ == Map::<DhtNodeId, f64>::empty()
+            && r.marked_for_eviction@ == Map::<DhtNodeId, EvictionReason>::empty(), // @C16/evict/new_manager_tracks_nobody
+        r.config == config,
+        r.reports_none(), // @C16/evict/new_manager_has_no_candidates
+"""},
+        {"impl": "EvictionManager", "fn": "record_failure", "rewrite": [_ENTRY],
+         "spec": """
+    requires
+        old(self).liveness_states@.contains_key(*node_id) ==> old(self).liveness_states@[*node_id].consecutive_failures < u32::MAX
+            && old(self).liveness_states@[*node_id].total_failures < u64::MAX,
+    ensures
+        final(self).cf_of(*node_id) == old(self).cf_of(*node_id) + 1, // @C16/evict/failure_counts_one_more_consecutive_failure
+        final(self).liveness_states@.contains_key(*node_id),
+        final(self).liveness_only_at(old(self), *node_id), // @C16/evict/failure_touches_no_other_peer
+        """ + _EVICT_FRAME_LT + """, // @C16/evict/failure_leaves_trust_and_marks
+"""},
+        {"impl": "EvictionManager", "fn": "record_success", "rewrite": [_ENTRY],
+         "spec": """
+    requires
+        old(self).liveness_states@.contains_key(*node_id) ==> old(self).liveness_states@[*node_id].total_successes < u64::MAX,
+    ensures
+        final(self).cf_of(*node_id) == 0, // @C16/evict/one_success_clears_consecutive_failures
+        final(self).config.max_consecutive_failures >= 1 ==> !final(self).fail_cand(*node_id), // @C16/evict/one_success_clears_failure_based_candidacy
+        final(self).liveness_only_at(old(self), *node_id), // @C16/evict/success_touches_no_other_peer
+        """ + _EVICT_FRAME_LT + """, // @C16/evict/success_leaves_trust_and_marks
+"""},
+        {"impl": "EvictionManager", "fn": "record_eviction",
+         "spec": """
+    ensures
+        final(self).marked_for_eviction@ == old(self).marked_for_eviction@.insert(*node_id, reason), // @C16/evict/explicit_rejection_is_recorded_for_that_peer_only
+        final(self).candidate(*node_id), // @C16/evict/explicitly_rejected_peer_is_a_candidate
+        final(self).liveness_states@ == old(self).liveness_states@ && final(self).trust_scores@ == old(self).trust_scores@ && final(self).same_config(old(self)), // @C16/evict/mark_leaves_liveness_and_trust
+"""},
+        {"impl": "EvictionManager", "fn": "update_trust_score",
+         "spec": """
+    ensures
+        final(self).trust_scores@ == old(self).trust_scores@.insert(*node_id, score), // @C16/evict/trust_update_sets_that_peers_score_only
+        final(self).liveness_states@ == old(self).liveness_states@ && final(self).marked_for_eviction@ == old(self).marked_for_eviction@ && final(self).same_config(old(self)), // @C16/evict/trust_update_leaves_liveness_and_marks
+"""},
+        {"impl": "EvictionManager", "fn": "get_trust_score",
+         "spec": """
+    ensures
+        r == (if self.trust_scores@.contains_key(*node_id) { Some(self.trust_scores@[*node_id]) } else { None::<f64> }), // @C16/evict/trust_score_reported
+"""},
+        {"impl": "EvictionManager", "fn": "get_consecutive_failures",
+         "closures": [{"at": r"\|s\|", "params": "|s: &NodeLivenessState|", "ret": "u32", "ensures": "ret == s.consecutive_failures"}],
+         "spec": """
+    ensures
+        r as int == self.cf_of(*node_id), // @C16/evict/failure_count_reported
+"""},
+        {"impl": "EvictionManager", "fn": "should_evict", "closures": [_CL_SHOULD_EVICT("&NodeLivenessState")],
+         "spec": """
+    ensures
+        r == self.fail_cand(*node_id), // @C16/evict/failure_candidate_iff_max_consecutive_failures
+"""},
+        {"impl": "EvictionManager", "fn": "should_evict_for_trust",
+         "closures": [{"at": r"\|&score\|", "params": "|score_r: &f64|", "ret": "bool", "prelude": "let score = *score_r;",
+                       "ensures": "ret == f64_lt(*score_r, self.config.min_trust_threshold)"}],
+         "spec": """
+    ensures
+        r == self.trust_cand(*node_id), // @C16/evict/trust_candidate_iff_score_below_threshold
+"""},
+        {"impl": "EvictionManager", "fn": "get_eviction_reason", "desugar": ["deref_pat"],
+         "closures": [_CL_SHOULD_EVICT("&&NodeLivenessState"),
+                      {"at": r"\|&&s\|", "params": "|s_r: &&f64|", "ret": "bool", "prelude": "let s = **s_r;",
+                       "ensures": "ret == f64_lt(**s_r, self.config.min_trust_threshold)"}],
+         "rewrite": [(r'format!\("\{:\.4\}", score\)', "verif_format_score(score)",
+                      "format! call moved into a shim fn whose body is that call (rendered text is not part of any obligation)")],
+         "spec": """
+    ensures
+        r.is_some() == self.candidate(*node_id), // @C16/evict/candidate_exactly_when_failures_or_low_trust_or_rejected
+        r matches Some(reason) ==> self.reason_ok(*node_id, reason), // @C16/evict/reason_precedence_rejection_then_failures_then_trust
+"""},
+        {"impl": "EvictionManager", "fn": "remove_node",
+         "spec": """
+    ensures
+        final(self).liveness_states@ == old(self).liveness_states@.remove(*node_id)
+            && final(self).trust_scores@ == old(self).trust_scores@.remove(*node_id)
+            && final(self).marked_for_eviction@ == old(self).marked_for_eviction@.remove(*node_id), // @C16/evict/forget_clears_that_peer_only
+        !final(self).candidate(*node_id), // @C16/evict/forgotten_peer_is_no_candidate
+        final(self).same_config(old(self)),
+"""},
+        {"impl": "EvictionManager", "fn": "get_eviction_candidates", "loop_count": 3, "desugar": ["continue"],
+         "rewrite": [
+             (r"let mut candidates = Vec::new\(\);", "let mut candidates: Vec<(DhtNodeId, EvictionReason)> = Vec::new();", "type annotation only"),
+             (r"for \(node_id, reason\) in &self\.marked_for_eviction", """let verif_it0 = self.marked_for_eviction.iter();
+        proof {
+            let s0 = verif_it0.remaining();
+            let m0 = self.marked_for_eviction@;
+            assert(s0.no_duplicates());
+            assert(forall|i: int| 0 <= i < s0.len() ==> m0.contains_key(*(#[trigger] s0[i]).0) && m0[*s0[i].0] == *s0[i].1);
+            assert(forall|k: DhtNodeId| m0.contains_key(k) ==> exists|i: int| 0 <= i < s0.len() && *(#[trigger] s0[i]).0 == k);
+            assert(forall|i: int, j: int| 0 <= i < j < s0.len() ==> *(#[trigger] s0[i]).0 != *(#[trigger] s0[j]).0);
+        }
+        for (node_id, reason) in it: verif_it0""",
+              "`for .. in &map` written as `for .. in map.iter()` (IntoIterator for &HashMap is defined as iter(); vstd specifies iter()); ghost iterator binder"),
+             (r"for node_id in self\.liveness_states\.keys\(\)", "let verif_it1 = self.liveness_states.keys();\n        proof { lemma_keys_facts(self.liveness_states@, verif_it1.remaining()); }\n        for node_id in it: verif_it1",
+              "iterator expression bound to a local before the loop (a for-loop evaluates it once either way) so that a proof block can name it; ghost iterator binder"),
+             (r"for node_id in self\.trust_scores\.keys\(\)", "let verif_it2 = self.trust_scores.keys();\n        proof { lemma_keys_facts(self.trust_scores@, verif_it2.remaining()); }\n        for node_id in it: verif_it2",
+              "iterator expression bound to a local before the loop; ghost iterator binder"),
+         ],
+         "loops": {
+             0: """
+            invariant
+                cands_sound(self, candidates@),
+                forall|i: int| 0 <= i < it.seq().len() ==> self.marked(*(#[trigger] it.seq()[i]).0) && self.marked_for_eviction@[*it.seq()[i].0] == *it.seq()[i].1,
+                forall|i: int, j: int| 0 <= i < j < it.seq().len() ==> *(#[trigger] it.seq()[i]).0 != *(#[trigger] it.seq()[j]).0,
+                forall|k: DhtNodeId| self.marked(k) ==> exists|i: int| 0 <= i < it.seq().len() && *(#[trigger] it.seq()[i]).0 == k,
+                forall|x: DhtNodeId| listed(candidates@, x) <==> exists|i: int| 0 <= i < it.index@ && *(#[trigger] it.seq()[i]).0 == x,
+""",
+             1: """
+            invariant
+                cands_sound(self, candidates@),
+                forall|i: int| 0 <= i < it.seq().len() ==> self.liveness_states@.contains_key(*(#[trigger] it.seq()[i])),
+                forall|i: int, j: int| 0 <= i < j < it.seq().len() ==> *(#[trigger] it.seq()[i]) != *(#[trigger] it.seq()[j]),
+                forall|k: DhtNodeId| self.liveness_states@.contains_key(k) ==> exists|i: int| 0 <= i < it.seq().len() && *(#[trigger] it.seq()[i]) == k,
+                forall|x: DhtNodeId| listed(candidates@, x) <==> (self.candidate(x) && (pass_of(self, x) == 0
+                    || (pass_of(self, x) == 1 && exists|i: int| 0 <= i < it.index@ && *(#[trigger] it.seq()[i]) == x))),
+""",
+             2: """
+            invariant
+                cands_sound(self, candidates@),
+                forall|i: int| 0 <= i < it.seq().len() ==> self.trust_scores@.contains_key(*(#[trigger] it.seq()[i])),
+                forall|i: int, j: int| 0 <= i < j < it.seq().len() ==> *(#[trigger] it.seq()[i]) != *(#[trigger] it.seq()[j]),
+                forall|k: DhtNodeId| self.trust_scores@.contains_key(k) ==> exists|i: int| 0 <= i < it.seq().len() && *(#[trigger] it.seq()[i]) == k,
+                forall|x: DhtNodeId| listed(candidates@, x) <==> (self.candidate(x) && (pass_of(self, x) <= 1
+                    || (pass_of(self, x) == 2 && exists|i: int| 0 <= i < it.index@ && *(#[trigger] it.seq()[i]) == x))),
+""",
+         },
+         "insert_before": [
+             (r"candidates\.push\(", 0, """let ghost c0 = candidates@;
+            proof {
+                lemma_listed_push(c0, (*node_id, *reason));
+                assert(!listed(c0, *node_id));
+                lemma_sound_push(self, c0, (*node_id, *reason));
+            }"""),
+             (r"candidates\.push\(", 1, """let ghost c0 = candidates@;
+                proof {
+                    lemma_listed_push(c0, (*node_id, reason));
+                    assert(!listed(c0, *node_id));
+                    lemma_sound_push(self, c0, (*node_id, reason));
+                }"""),
+             (r"candidates\.push\(", 2, """let ghost c0 = candidates@;
+                proof {
+                    lemma_listed_push(c0, (*node_id, reason));
+                    assert(!listed(c0, *node_id));
+                    lemma_sound_push(self, c0, (*node_id, reason));
+                }"""),
+         ],
+         "insert_after": [
+             (r"candidates\.push\(\(node_id\.clone\(\), reason\.clone\(\)\)\);", None, """proof {
+                assert(candidates@ == c0.push((*node_id, *reason)));
+                assert forall|x: DhtNodeId| listed(candidates@, x) <==> exists|i: int| 0 <= i < it.index@ + 1 && *(#[trigger] it.seq()[i]).0 == x by {
+                    if listed(candidates@, x) {
+                        if x == *node_id { assert(*it.seq()[it.index@].0 == x); }
+                        else { assert(listed(c0, x)); let i = choose|i: int| 0 <= i < it.index@ && *(#[trigger] it.seq()[i]).0 == x; assert(0 <= i < it.index@ + 1); }
+                    }
+                    if exists|i: int| 0 <= i < it.index@ + 1 && *(#[trigger] it.seq()[i]).0 == x {
+                        let i = choose|i: int| 0 <= i < it.index@ + 1 && *(#[trigger] it.seq()[i]).0 == x;
+                        if i < it.index@ { assert(listed(c0, x)); }
+                    }
+                }
+            }"""),
+         ],
+         "spec": """
+    ensures
+        cands_exact(self, r@), // @C16/evict/candidate_list_is_exactly_the_candidates_each_once_with_the_policy_reason
+"""},
+    ],
+    "paired_kani": [],
+    "search_test": "verif_search_c16_evict",
+    "trusted": [
+        "ASSUMED: std::collections::HashMap through vstd's specifications (obeys_key_model::<DhtNodeId> assumed: Hash/Eq of the id newtype are consistent)",
+        "ASSUMED shim contract: HashMap::entry(k).or_default() returns the existing value or a freshly inserted NodeLivenessState::default() (= new(), text checked on every run)",
+        "ASSUMED: IEEE-754 `<` on f64 is a deterministic function of its operands (f64_lt); nothing else about floats is used",
+        "ASSUMED: derived Clone of DhtNodeId / EvictionReason returns an equal value; Option::filter / Option::copied specifications",
+        "format!(\"{:.4}\", score) moved into an external_body shim (returns some String)",
+        "verus precondition: fewer than 2^32 consecutive failures / 2^64 events per peer",
+        "dropped statements write only NodeLivenessState.last_seen (Instant), which no contract mentions",
+    ],
+}
+
+_F64_CAST = (r"\b([A-Za-z_][\w\.]*?(?:\.len\(\))?) as f64", r"\1.verif_as_f64()",
+             "integer-to-f64 cast renamed to a shim method whose body is the cast (`x as f64`); its result is the function f_of_nat of the value")
+_F64_ADD_ASSIGN = (r"\b(\w+) \+= (\w+);", r"\1 = \1 + \2;", "compound assignment `a += b` written as `a = a + b` (definition of += for primitive numbers; Verus' front end panics on f64 `+=`)")
+_CGV_RES_FRAME = "final(result).node_id == old(result).node_id && final(result).confirming_regions == old(result).confirming_regions && final(result).used_bft_consensus == old(result).used_bft_consensus"
+UNITS["cgv"] = {
+    "property": "C15",
+    "src": "src/dht/routing_maintenance/close_group_validator.rs",
+    "spec": "verus/cgv.spec.rs",
+    "preludes": ["verus/float.spec.rs"],
+    "shims": {
+        "CloseGroupResponse": (None, {"confirms_membership": "bool", "peer_trust_score": "Option<f64>", "peer_region": "Option<String>",
+                                      "response_latency": "Duration"}),
+        "CloseGroupValidationResult": (None, {"node_id": "DhtNodeId", "is_valid": "bool", "confirmation_ratio": "f64", "weighted_confirmation": "f64",
+                                              "confirming_regions": "usize", "failure_reasons": "Vec<CloseGroupFailure>",
+                                              "used_bft_consensus": "bool"}),
+        "CloseGroupValidatorConfig": (None, {"min_peers_to_query": "usize", "trust_weighted_threshold": "f64", "bft_threshold": "f64",
+                                             "min_witness_trust": "f64", "min_regions": "usize"}),
+        "CloseGroupValidator": (None, {"config": "CloseGroupValidatorConfig"}),
+    },
+    "enums": ["CloseGroupFailure"],
+    "expect_text": [("src/dht/routing_maintenance/close_group_validator.rs",
+                     r"pub fn is_attack_mode\(&self\) -> bool \{\s*self\.attack_mode\.load\(Ordering::Relaxed\)\s*\}",
+                     "is_attack_mode is a plain read of the AtomicBool (modelled as a spec value)")],
+    "items": [
+        {"impl": "CloseGroupValidationResult", "fn": "new",
+         "drop": [r"validation_duration: Duration::ZERO,\n", r"validated_at: SystemTime::now\(\),\n"],
+         "spec": """
+    ensures
+        !r.is_valid, // @C15/result/a_fresh_result_is_not_valid
+        r.failure_reasons@.len() == 0 && !r.used_bft_consensus && r.node_id == node_id,
+"""},
+        {"impl": "CloseGroupValidationResult", "fn": "add_failure",
+         "spec": """
+    ensures
+        final(self).is_valid == old(self).is_valid, // @C15/result/recording_a_failure_reason_does_not_change_the_verdict
+        final(self).confirmation_ratio == old(self).confirmation_ratio && final(self).weighted_confirmation == old(self).weighted_confirmation
+            && final(self).confirming_regions == old(self).confirming_regions && final(self).used_bft_consensus == old(self).used_bft_consensus
+            && final(self).node_id == old(self).node_id,
+"""},
+        {"impl": "CloseGroupValidator", "fn": "validate_trust_weighted", "loop_count": 1,
+         "rewrite": [_F64_ADD_ASSIGN, _F64_CAST,
+                     (r"for response in responses", "for response in it: responses", "ghost iterator binder (binder only)"),
+                     (r"let mut confirmations = 0;", "let mut confirmations: usize = 0;", "integer literal given the type usize (it is only counted up and cast to f64; the inferred i32 would need an overflow precondition)")],
+         "loops": {0: """
+            invariant
+                total_weight == total_w(responses@, it.index@),
+                confirming_weight == conf_w(responses@, it.index@),
+                confirmations == conf_n(responses@, it.index@),
+                0 <= confirmations <= it.index@, it.seq().len() == responses@.len(), it.index@ <= it.seq().len(), responses@.len() <= usize::MAX,
+"""},
+         "spec": """
+    requires
+        responses@.len() <= usize::MAX,
+    ensures
+        final(result).weighted_confirmation == share(responses@), // @C15/normal/weighted_confirmation_is_the_confirming_share_of_witness_trust
+        final(result).is_valid == normal_accepts(self, responses@), // @C15/normal/valid_iff_share_reaches_the_threshold
+        """ + _CGV_RES_FRAME + """,
+"""},
+        {"impl": "CloseGroupValidator", "fn": "validate_bft",
+         "closures": [
+             {"at": r"\|r\|", "occ": 0, "params": "|r: &&CloseGroupResponse|", "ret": "bool", "ensures": "ret == trusted(**r, self.config.min_witness_trust)"},
+             {"at": r"\|r\|", "occ": 0, "params": "|r: &&&CloseGroupResponse|", "ret": "bool", "ensures": "ret == r.confirms_membership"},
+         ],
+         "rewrite": [
+             _F64_CAST,
+             (r"(?<![\w])responses\s*\.iter\(\)\s*\.filter\(", "verif_filter_collect(responses, ", "iterator chain `xs.iter().filter(p).collect()` renamed to a shim fn whose body is that chain (contract: documented std behaviour); the closure stays in place"),
+             (r"\)\s*\.collect\(\);", ", Ghost(|x: CloseGroupResponse| trusted(x, self.config.min_witness_trust)));", "end of the renamed chain + ghost predicate argument (specification only)"),
+             (r"trusted_responses\s*\.iter\(\)\s*\.filter\(", "verif_filter_count(&trusted_responses, ", "iterator chain `xs.iter().filter(p).count()` renamed to a shim fn whose body is that chain"),
+             (r"\)\s*\.count\(\);", ", Ghost(|x: CloseGroupResponse| x.confirms_membership));", "end of the renamed chain + ghost predicate argument (specification only)"),
+         ],
+         "spec": """
+    requires
+        !old(result).is_valid,
+    ensures
+        final(result).is_valid ==> trusted_of(responses@, self.config.min_witness_trust).len() >= self.config.min_peers_to_query, // @C15/bft/needs_the_minimum_number_of_sufficiently_trusted_witnesses
+        final(result).is_valid ==> f_ge(bft_ratio(responses@, self.config.min_witness_trust), self.config.bft_threshold), // @C15/bft/needs_the_configured_fraction_of_trusted_confirmations
+        final(result).is_valid ==> !collusion_flag(trusted_of(responses@, self.config.min_witness_trust)), // @C15/bft/collusion_flag_blocks_acceptance
+        (trusted_of(responses@, self.config.min_witness_trust).len() >= self.config.min_peers_to_query
+            && f_ge(bft_ratio(responses@, self.config.min_witness_trust), self.config.bft_threshold)
+            && !collusion_flag(trusted_of(responses@, self.config.min_witness_trust))) ==> final(result).is_valid,
+        """ + _CGV_RES_FRAME + """,
+"""},
+        {"impl": "CloseGroupValidator", "fn": "validate_membership",
+         "drop": [r"let start = Instant::now\(\);\n"],
+         "drop_all": [(r"result\.validation_duration = start\.elapsed\(\);\n", "writes only CloseGroupValidationResult.validation_duration, which no contract mentions")],
+         "closures": [{"at": r"\|trust\|", "params": "|trust: f64|", "ret": "bool", "ensures": "ret == f_lt(trust, self.config.min_witness_trust)"}],
+         "spec": """
+    requires
+        responses@.len() <= usize::MAX,
+    ensures
+        r.is_valid ==> gates_pass(self, responses@, node_trust_score), // @C15/gates/needs_minimum_answers_and_a_candidate_not_below_minimum_trust
+        (self.attack_mode@ && r.is_valid) ==> bft_accepts(self, responses@), // @C15/bft/accepted_only_with_quorum_of_trusted_witnesses_regions_and_no_collusion
+        (!self.attack_mode@ && r.is_valid) ==> normal_accepts(self, responses@), // @C15/normal/accepted_only_if_confirming_share_reaches_threshold
+        gates_pass(self, responses@, node_trust_score) ==> r.used_bft_consensus == self.attack_mode@, // @C15/mode/attack_mode_uses_bft_consensus
+        (self.attack_mode@ && gates_pass(self, responses@, node_trust_score) && bft_accepts(self, responses@)) ==> r.is_valid,
+        (!self.attack_mode@ && gates_pass(self, responses@, node_trust_score) && normal_accepts(self, responses@)) ==> r.is_valid,
+"""},
+    ],
+    "paired_kani": [],
+    "trusted": [
+        "ASSUMED float prelude (verus/float.spec.rs): IEEE-754 operators on f64 are deterministic total functions of their operands; `x as f64` a function of x",
+        "ASSUMED callee contracts: count_confirming_regions == number of distinct known regions among confirming witnesses (HashSet chain, not verified); detect_collusion_indicators == collusion_flag (uninterpreted), false below 3 witnesses (proved on the real fn by Kani c15_collusion_contract_*, bounded); is_attack_mode reads the AtomicBool",
+        "ASSUMED shim contracts: xs.iter().filter(p).collect() / .count() yield the elements satisfying p in order / their number (documented std behaviour); the closures themselves are verified",
+        "precondition responses.len() <= usize::MAX (true of every Rust slice; Verus does not know it)",
+        "struct shims omit fields no extracted function reads (peer_id, received_at, validation_duration, validated_at, ...); statements writing validation_duration dropped",
     ],
 }
